@@ -55,13 +55,20 @@ def syms_of(bs):
     return [b if isinstance(b, int) else b[1] for b in bs]
 
 
-def h_get(m, ctx, n, ext_n):
+def h_get(m, ctx, n, ext_n, dotted=False):
     """get_txtpp_file(x): x = stem[.ext]; candidates x.ext.txtpp / x.txtpp.ext / x.txtpp exist or not (fork)"""
     it = Interp(m, ctx)
     env = Env(it, cwd=b'/w')
     it.env = env
     env.add_dir(b'/w')
-    stem = ctx.fresh_bytes('s', n, [97, 120])
+    stem = ctx.fresh_bytes('s', n, [97, 120, 46] if dotted else [97, 120])
+    if dotted:
+        # D9: no empty dot-separated component (no leading / trailing / doubled dot)
+        from mirsym.core import t_eq, t_not, t_or
+        ctx.assume(t_not(t_eq(stem[0], 46)))
+        ctx.assume(t_not(t_eq(stem[-1], 46)))
+        for a, b in zip(stem, stem[1:]):
+            ctx.assume(t_or(t_not(t_eq(a, 46)), t_not(t_eq(b, 46))))
     ext = ctx.fresh_bytes('e', ext_n, [97, 116, 120, 112])          # may spell txtpp when ext_n == 5
     x = tuple(b'/w/') + stem + ((46,) + ext if ext_n else ())
     c1 = x + tuple(b'.txtpp')                                      # foo.ext.txtpp  /  foo.txtpp
@@ -250,6 +257,9 @@ def jobs(tier):
     for n in (1, 2):
         for en in (0, 1, 2, 5):
             js.append({'name': 'get_txtpp_file stem=%d ext=%d' % (n, en), 'harness': (H, 'h_get'), 'params': {'n': n, 'ext_n': en}})
+    for n in ((3, 4) if quick else (3, 4, 5, 6)):
+        for en in (0, 1, 2, 5):
+            js.append({'name': 'get_txtpp_file dotted stem=%d ext=%d' % (n, en), 'harness': (H, 'h_get'), 'params': {'n': n, 'ext_n': en, 'dotted': True}})
     sel = [(['.'], False), (['.'], True), (['a.txt'], False), (['a.txt.txtpp', './a.txt', 'a.txt'], False), (['b.md', 'c'], False),
            (['missing.txt'], False), (['sub'], False), (['sub', '.'], True), (['../w'], True), (['/w', 'sub/../a.txt'], False),
            (['c.txtpp', 'sub/n'], False), (['plain.txt'], False), (['txtpp'], False), (['.txtpp'], False)]
@@ -268,7 +278,7 @@ def jobs(tier):
 
 
 BOUNDS = {'quick': 'names: every file name of 0-12 bytes over {a . t x p} (spells txtpp, hidden files, multiple dots) also inside a dotted directory; '
-                   'get_txtpp_file: stems 1-2 bytes, extensions 0/1/2/5 bytes (incl. `txtpp`), both candidate sources present or not; selection: '
+                   'get_txtpp_file: stems 1-2 bytes and dotted stems of 3-4 bytes (a.x, a.a.x ...), extensions 0/1/2/5 bytes (incl. `txtpp`), both candidate sources present or not; selection: '
                    'every subset of 11 candidate entries (3 source shapes, 5 look-alikes, nested sub-directories) x 18 input lists x recursion',
           'thorough': 'names up to 15 bytes'}
 from . import project as _project
